@@ -17,8 +17,10 @@
     | evm Keeper.hooks, epochs Keeper.hooks   | SetHooks in NewHaqq                         | constant of construction                    |
     | evm Keeper.tracer, ante MaxTxGasWanted, baseapp minGasPrices, invCheckPeriod, skipUpgradeHeights | app options / node config | node-local configuration, identical for both nodes of the comparison; not consensus input |
     | keepers, store keys, codecs, module manager, configurator, msg/query routers, IBC router, ante/post handler, upgrade handlers (hold a *copy* of the evm keeper taken at construction: its chain id is nil on every node) | NewHaqq | constants of construction |
-    | upgrade Keeper.downgradeVerified        | first BeginBlock after start                | a check against the db (panics on a wrong binary), no effect on results |
-    | capability Keeper memstore + capMap     | InitMemStore in the first BeginBlock        | rebuilt from the persistent capability store (SDK) |
+    | upgrade Keeper.downgradeVerified        | first BeginBlock after start                | a check against the db (panics on a wrong binary); its extra store reads are charged to the block context's gas meter: known finding K16 ([preante_gas_leak_breaks_restart_refuted]) |
+    | capability Keeper memstore + capMap     | InitMemStore in the first BeginBlock        | rebuilt from the persistent capability store (SDK); the rebuild is charged to the same meter (K16) |
+    | baseapp deliverState ctx gas meter      | new per block, fed by the begin blockers    | reported as GasUsed of a transaction that fails before the ante handler and added to the block gas meter (K16); repaired by running the begin blockers on a private meter ([preante_gas_fixed_restart_equiv]) |
+    | stored parameters (evm, feemarket, ...) | MsgUpdateParams / ParameterChangeProposal   | database, not memory: [pstep], [params_node_restart_equiv]; start-up code must not rewrite them ([latch_breaks_restart_refuted]) |
     | baseapp deliverState / checkState       | BeginBlock / Commit; Init() after load      | deliverState rebuilt from db at BeginBlock; checkState header is EMPTY between start and the first Commit (the driver reports what depends on it) |
     | transient stores (evm, feemarket, params)| reset at Commit                             | empty at every block boundary on both nodes |
     | tpsCounter                              | DeliverTx increments, goroutine logs        | never read by the state machine             |
